@@ -28,7 +28,7 @@ func init() {
 		ruleE10, ruleF3, ruleE3, ruleE3s, ruleO3, ruleR6, ruleT10k, ruleK6)
 	register("C12", "Decided: layout attributes of the extracted grammar. Not decided: language equivalence under re-layout.",
 		ruleT10Layout, ruleT10a, ruleL19, ruleT10k)
-	register("C13", "Decided: explicit crash primitives reachable from the entry points; parser panic recovery. Not decided: implicit run-time panics and the complexity clause.",
+	register("C13", "Decided for gosk's own code: explicit crash primitives reachable from the entry points and parser panic recovery; every constant and variable index, slice expression and forced type assertion; integer division; computed and input-sized make lengths; Must helpers; recursion through the EQU table; bracket nesting depth of the grammar. Not decided: nil dereferences, panics inside generated parsers and third-party modules, the complexity clause.",
 		ruleE6, ruleD13, ruleX13, ruleM13, ruleR13, ruleI13, ruleA13, ruleV13, ruleE6m, ruleM13b, ruleG13, ruleL13)
 	register("C14", "Decided: emission-time context vs traversal-time writers, no package-level writes after init, append-only ocode list, unconditional forward emission loop.",
 		ruleE5, ruleE1, ruleE1b, ruleE3, ruleE3s, ruleEmitLoop, ruleP7, ruleP8)
